@@ -369,6 +369,10 @@ pub fn run(tier: Tier, seed: u64, findings: &Findings) -> i32 {
             explicit.push(Case { group: Group::default(), style: 0, mutations: vec![], mangling: false, d0: envs[0].clone(), steps: vec![], raw_entry: Some(raw), envs: vec![] });
         }
     }
+    // names whose camel-cased form would collide with another attribute
+    for raw in ["<slot name-=\"1\"/>", "<slot name-/>", "<v model:value-=\"{{a}}\" model:value=\"{{b}}\"/>", "<v change:p-=\"{{a}}\"/>", "<slot a--b=\"1\"/>", "<v data-a-=\"1\" data-a=\"2\"/>"] {
+        explicit.push(Case { group: Group::default(), style: 0, mutations: vec![], mangling: false, d0: envs[0].clone(), steps: vec![], raw_entry: Some(raw.to_string()), envs: vec![] });
+    }
     report.extra.insert("operator_texts".into(), json!(texts.len()));
     report.merge(engine::run_explicit(&check, &cfg, explicit, 2, 16, findings));
     let cases = tier.pick(20_000, 300_000);
